@@ -32,13 +32,25 @@ func (e *Engine) sortedPubs() []*pubInfo {
 // CheckPanics: the panic handler (if set) was called exactly once per panicking invocation with
 // the event, the handler's type and the panic value (C05).
 func (e *Engine) CheckPanics() {
-	if e.failed || !e.P.Cfg.PanicHandler {
+	// the panic handler is either configured from the start or installed at a recorded point of the
+	// program (SetPH); panics of handlers that exited after that point must be reported
+	setAt := uint64(0)
+	if !e.P.Cfg.PanicHandler {
+		setAt = ^uint64(0)
+		for _, t := range e.Trace {
+			if t.K == "ph.set" {
+				setAt = t.St
+				break
+			}
+		}
+	}
+	if e.failed || setAt == ^uint64(0) {
 		return
 	}
 	for _, pi := range e.sortedPubs() {
 		want := map[string]int{}
 		for _, t := range e.Trace {
-			if t.K == "h.exit" && t.EID == pi.eid && t.Err {
+			if t.K == "h.exit" && t.EID == pi.eid && t.Err && t.St > setAt {
 				r := e.reg(t.Reg)
 				ht := e.drv(r.typ).HandlerType(r.spec.Ctx).String()
 				want[ht+"|"+expectPanicDesc(r.spec.PanicKind, r.id, pi.eid)]++
